@@ -738,6 +738,7 @@ package scipipe
 // Replay only (never an obligation or an assumption): a failing atcall obligation is replayed on the command that
 // consists of the one placeholder the model is looking at, and the real result is compared with the documented expansion.
 //@   replay input cmd = placeholderText(portInfo.portType, portName, placeHolder.modifiers)
+//@   replay assume portName != "" && !contains(portName, "|") && !contains(portName, "{") && !contains(portName, "}") && len(placeHolder.modifiers) <= 2 && (len(placeHolder.modifiers) > 0 ==> docMod(placeHolder.modifiers[0])) && (len(placeHolder.modifiers) > 1 ==> docMod(placeHolder.modifiers[1]))
 //@   replaycheck expands-as-documented[C01,C09,C13,C15,C17,C18]: res == expandedCmd(cmd, portInfos, inIPs, subStreamIPs, outIPs, params, tags, prepend)
 //@   atcall strings.Replace all-occurrences[C15]: $arg3 < 0 && $arg1 == placeHolder.match && $arg2 == replacement
 //@   atcall strings.Replace known-type[C09,C15]: portInfo.portType == "o" || portInfo.portType == "os" || portInfo.portType == "i" || portInfo.portType == "p" || portInfo.portType == "t"
